@@ -168,10 +168,14 @@ NameSpace(k) == UNION {NamesOfLen(n) : n \in 1..k}
 \* an extension header cannot carry the empty name (an empty PAX path record means "no override")
 TypedNames(k, types) == {x \in NameSpace(k) \X types : ~(x[2] = "xheader" /\ x[1].comps = <<"">>)}
 
-Entry(nm, ty, sz) == [comps |-> nm.comps, seps |-> nm.seps, type |-> ty, size |-> sz, short |-> FALSE, enc |-> "ustar"]
+\* link: where the Linkname of a symlink / hardlink entry points: "inside" dest, "outside" (absolute), "sibling" (../<a directory
+\* next to dest whose name starts with dest's name>/canary), "updeep" (../../../../out/canary); "any": drawn by the harness
+LinkClasses == {"inside", "outside", "sibling", "updeep"}
+Entry(nm, ty, sz) == [comps |-> nm.comps, seps |-> nm.seps, type |-> ty, size |-> sz, short |-> FALSE, enc |-> "ustar", link |-> "any"]
+EntryL(nm, ty, sz, lk) == [Entry(nm, ty, sz) EXCEPT !.link = lk]
 ChartYamlSize == 64
 ChartYamlEntry == [comps |-> <<"top", "Chart.yaml">>, seps |-> <<"/">>, type |-> "reg", size |-> ChartYamlSize,
-                   short |-> FALSE, enc |-> "ustar"]
+                   short |-> FALSE, enc |-> "ustar", link |-> "any"]
 
 HasBackslash(e) == \E i \in DOMAIN e.seps : e.seps[i] = "\\"
 IsAbsC(cs)      == Len(cs) >= 2 /\ cs[1] = ""
@@ -248,7 +252,8 @@ SizeVals == {0, 64, TLim - ChartYamlSize - FLim - 1, TLim - ChartYamlSize - FLim
 \* an unknown vendor flag
 DataTypes == {"reg", "rega", "cont", "vendor"}
 SizedEntry(i, sz, short, enc, ty) ==
-  [comps |-> <<"top", "f" \o ToString(i)>>, seps |-> <<"/">>, type |-> ty, size |-> sz, short |-> short, enc |-> enc]
+  [comps |-> <<"top", "f" \o ToString(i)>>, seps |-> <<"/">>, type |-> ty, size |-> sz, short |-> short, enc |-> enc,
+   link |-> "any"]
 SizeStreams(maxn) ==
   UNION {{[i \in 1..n |-> SizedEntry(i, ss[i], FALSE, enc, ty)] : ss \in [1..n -> SizeVals], enc \in {"ustar", "pax"}, ty \in DataTypes} :
            n \in 1..maxn}
@@ -285,12 +290,16 @@ LockLayouts == {"absent", "file", "linkOutEmpty", "linkOutLock", "linkOutJunk", 
 CasesLock == {CaseRec("lock", "lock", <<>>, "empty", <<>>, api, ll) : api \in {"v1", "v2"}, ll \in LockLayouts}
 
 \* F5: two entries (a link or directory first, then a path through it)
-E2(pre) == {Entry([comps |-> pre \o cs, seps |-> [i \in 1..(Len(pre \o cs) - 1) |-> "/"]], ty, IF ty = "reg" THEN 8 ELSE 0) :
-              cs \in {<<"n1">>, <<"n1", "n2">>, <<"n2">>}, ty \in {"reg", "dir", "symlink"}}
+\* link entries come with every Linkname class in the plugin archives (a hard link followed by a regular entry of
+\* the same name, a symlink followed by a path through it, ...)
+E2Name(pre, cs) == [comps |-> pre \o cs, seps |-> [i \in 1..(Len(pre \o cs) - 1) |-> "/"]]
+E2Names == {<<"n1">>, <<"n1", "n2">>, <<"n2">>}
+E2(pre, lks) == {EntryL(E2Name(pre, cs), ty, IF ty = "reg" THEN 8 ELSE 0, "any") : cs \in E2Names, ty \in {"reg", "dir"}}
+                \cup {EntryL(E2Name(pre, cs), ty, 0, lk) : cs \in E2Names, ty \in {"symlink", "hardlink"}, lk \in lks}
 CasesTwo == {CaseRec("two", "extract", <<a, b>>, l, <<>>, "", "") :
-               a \in E2(<<>>), b \in E2(<<>>), l \in {"empty", "parentOutDir", "dir"}}
+               a \in E2(<<>>, LinkClasses), b \in E2(<<>>, LinkClasses), l \in {"empty", "parentOutDir", "dir"}}
             \cup {CaseRec("two", "expand", <<ChartYamlEntry, a, b>>, l, <<"chart">>, "", "") :
-               a \in E2(<<"top">>), b \in E2(<<"top">>), l \in {"empty", "parentOutDir", "dir"}}
+               a \in E2(<<"top">>, {"outside"}), b \in E2(<<"top">>, {"outside"}), l \in {"empty", "parentOutDir", "dir"}}
 
 (* ----------------------------------------------------------------------- *)
 (* the machine: one record state, one deterministic step                    *)
